@@ -18,7 +18,7 @@ META = {
     "assumptions": ["the fault index, kind and widget behaviour are decided before run() starts (engine control exceptions must not travel through a reactor)"],
 }
 
-LOOPS = ["select", "asyncio", "tornado", "twisted", "trio", "zmq"]
+from ._loops import LOOPS
 MAXF = 40
 
 
@@ -255,30 +255,9 @@ def h_session(I, loop, pop_ups, ext, modes, free_flags):
         return keys
 
     # ---- the loop under test -----------------------------------------------------------------------------------
-    aio = None
-    if loop == "select":
-        el = urwid.SelectEventLoop()
-    elif loop == "asyncio":
-        import asyncio
+    from ._loops import make_loop
 
-        aio = asyncio.new_event_loop()
-        el = urwid.AsyncioEventLoop(loop=aio)
-    elif loop == "tornado":
-        import asyncio
-
-        from tornado.ioloop import IOLoop
-
-        aio = asyncio.new_event_loop()
-        asyncio.set_event_loop(aio)
-        el = urwid.TornadoEventLoop(IOLoop(make_current=False) if False else IOLoop())
-    elif loop == "twisted":
-        from twisted.internet.selectreactor import SelectReactor
-
-        el = urwid.TwistedEventLoop(reactor=SelectReactor())
-    elif loop == "trio":
-        el = urwid.TrioEventLoop()
-    else:
-        el = urwid.ZMQEventLoop()
+    el, close_loop = make_loop(urwid, loop)
 
     outcome = ml = None
     try:
@@ -327,11 +306,7 @@ def h_session(I, loop, pop_ups, ext, modes, free_flags):
                 os.close(fd)
             except OSError:
                 pass
-        if aio is not None:
-            try:
-                aio.close()
-            except Exception:  # noqa: BLE001
-                pass
+        close_loop()
 
     fired = st["fired"]
     I.note("session", {"loop": loop, "fault_index": f, "kind": "exit" if kind_exit else "error", "fired_in": fired, "callbacks": st["n"],
